@@ -35,6 +35,9 @@ pub struct DefectCase {
     pub entry: GenEntry,
     pub rate_exp: Option<u8>,
     pub defects: Vec<(Defect, u32, u32)>,
+    /// format the valid base entry on the same formatter first (same dimension sets, same names)
+    #[serde(default)]
+    pub warm: bool,
 }
 
 #[derive(Clone, Debug, Serialize, Deserialize)]
@@ -45,8 +48,17 @@ pub struct AnyCase {
 }
 
 fn run_fmt(cfg: &EmfCfg, entry: &GenEntry, s: &Sampling) -> Result<(Decision, Vec<u8>), Fail> {
+    run_fmt_warm(cfg, &[], entry, s)
+}
+
+/// the same after the formatter has already formatted `warmup` (outputs ignored)
+fn run_fmt_warm(cfg: &EmfCfg, warmup: &[&GenEntry], entry: &GenEntry, s: &Sampling) -> Result<(Decision, Vec<u8>), Fail> {
     let mut out = vec![];
     let mut emf = no_panic("emf-build", || cfg.build())?;
+    for w in warmup {
+        let mut sink = vec![];
+        let _ = no_panic("emf-format-warmup", || format_once(&mut emf, w, &Sampling::None, &mut sink))?;
+    }
     let dec = no_panic("emf-format", || format_once(&mut emf, entry, s, &mut out))?;
     Ok((dec, out))
 }
@@ -165,11 +177,12 @@ pub fn check_defect(case: &DefectCase) -> CaseResult {
     if applied.is_empty() {
         return Ok(vec!["no-defect-applicable"]);
     }
-    let (dec, out) = run_fmt(&case.cfg, &entry, &s)?;
+    let warmup: Vec<&GenEntry> = if case.warm { vec![&case.entry] } else { vec![] };
+    let (dec, out) = run_fmt_warm(&case.cfg, &warmup, &entry, &s)?;
     match &dec {
         Decision::Validation(_) => {}
         other => vfail!(
-            format!("defect-accepted:{}", applied[0].name()),
+            format!("defect-accepted{}:{}", if case.warm { "-on-warm-formatter" } else { "" }, applied[0].name()),
             "entry with injected defect(s) {applied:?} was not rejected by a validating formatter ({}): {other:?}\nentry={entry:?}\noutput={:?}",
             ctor_class(case.cfg.ctor),
             String::from_utf8_lossy(&out)
@@ -194,6 +207,9 @@ pub fn check_defect(case: &DefectCase) -> CaseResult {
         );
     }
     let mut classes: Classes = vec!["rejected"];
+    if case.warm {
+        classes.push("warm-formatter");
+    }
     classes.push(ctor_class(case.cfg.ctor));
     for d in &applied {
         classes.push(d.name());
@@ -271,6 +287,9 @@ pub struct DimKeyCase {
     pub cfg_dim: bool,
     pub second_record: bool,
     pub value: String,
+    /// first format a VALID entry that uses the same dimension set on the same formatter
+    #[serde(default)]
+    pub warm: bool,
 }
 
 pub fn check_dim_key(case: &DimKeyCase) -> CaseResult {
@@ -325,7 +344,22 @@ pub fn check_dim_key(case: &DimKeyCase) -> CaseResult {
         ops,
         sample_group: vec![],
     };
-    let (dec, out) = run_fmt(&cfg, &entry, &Sampling::None)?;
+    // a valid entry with the same dimension set (no colliding string / metric / repeated key)
+    let warm_entry = GenEntry {
+        ops: vec![
+            Op::Config(CfgG::AllowSplit),
+            Op::Timestamp {
+                secs: 1,
+                nanos: 0,
+                before_epoch: false,
+            },
+            m("W", if case.key_kind % 4 == 3 { vec![("K2".to_string(), case.value.clone())] } else { dims.clone() }),
+        ],
+        sample_group: vec![],
+    };
+    let usable_warm = case.warm && !(case.cfg_dim) && case.key_kind % 4 != 3;
+    let warmup: Vec<&GenEntry> = if usable_warm { vec![&warm_entry] } else { vec![] };
+    let (dec, out) = run_fmt_warm(&cfg, &warmup, &entry, &Sampling::None)?;
     let mut classes: Classes = vec![match case.key_kind % 4 {
         0 => "key=string-name",
         1 => "key=metric-name",
@@ -342,6 +376,9 @@ pub fn check_dim_key(case: &DimKeyCase) -> CaseResult {
             classes.push("rejected");
         }
         Decision::Io(e) => vfail!("io-on-vec", "{e}"),
+    }
+    if usable_warm {
+        classes.push("warm-formatter");
     }
     classes.push("nt");
     Ok(classes)
@@ -410,6 +447,7 @@ pub fn run(ctx: &mut Ctx) {
             "repeated-entry-dims",
             "late-entry-dims",
             "combined-defects",
+            "warm-formatter",
         ]),
         || {
             (
@@ -417,8 +455,9 @@ pub fn run(ctx: &mut Ctx) {
                 arb_validating_ctor(),
                 super::c03::arb_rate_exp(),
                 prop::collection::vec((arb_defect(), any::<u32>(), any::<u32>()), 1..4),
+                any::<bool>(),
             )
-                .prop_map(|((cfg, entry), ctor, rate_exp, defects)| {
+                .prop_map(|((cfg, entry), ctor, rate_exp, defects, warm)| {
                     let was_ignored = cfg.allow_ignored;
                     let cfg2 = cfg.with_ctor(ctor).normalize();
                     let mut entry = entry;
@@ -430,6 +469,7 @@ pub fn run(ctx: &mut Ctx) {
                         entry,
                         rate_exp,
                         defects,
+                        warm,
                     }
                 })
         },
@@ -482,14 +522,16 @@ pub fn run(ctx: &mut Ctx) {
                 any::<bool>(),
                 any::<bool>(),
                 "[a-z]{0,3}",
+                any::<bool>(),
             )
-                .prop_map(|(ctor, key_kind, order, cfg_dim, second_record, value)| DimKeyCase {
+                .prop_map(|(ctor, key_kind, order, cfg_dim, second_record, value, warm)| DimKeyCase {
                     ctor,
                     key_kind,
                     order,
                     cfg_dim,
                     second_record,
                     value,
+                    warm,
                 })
         },
         check_dim_key,
